@@ -188,12 +188,25 @@ func traceViolation(prop string, h History, repeats, procs int, tmpDir string) (
 // workTrace is the worker loop of C12 / C20.
 func workTrace(prop, tier string, seed uint64, worker int, budget float64, maxRuns int, o *WorkerOut, states map[uint64]bool) {
 	start := time.Now()
-	tmpDir := filepath.Join(verifDir, "tmp")
-	const batch = 16
-	for run := 0; run < maxRuns; {
+	for run := 0; run < maxRuns; run += 16 {
 		if time.Since(start).Seconds() > budget {
 			break
 		}
+		end := run + 16
+		if end > maxRuns {
+			end = maxRuns
+		}
+		noteProgress(prop, "C", tier, seed, worker, run, "")
+		workTraceRuns(prop, tier, seed, worker, run, end, o, states)
+	}
+}
+
+// workTraceRuns executes runs [from, to) of a trace worker as one batch.
+func workTraceRuns(prop, tier string, seed uint64, worker int, from, to int, o *WorkerOut, states map[uint64]bool) {
+	tmpDir := filepath.Join(verifDir, "tmp")
+	batch := to - from
+	maxRuns := to
+	for run := from; run < maxRuns; {
 		var hs []History
 		var refs []string
 		var results []*sim.RunResult
